@@ -104,6 +104,10 @@ func generateEnumsSpec(doc *v3.Document, model definitions.EnumMetadata) {
 			Kind: yaml.ScalarNode,
 		}
 		node.Value = value
+		if value == "" {
+			// an empty untagged scalar is read back as null; the empty string is a legitimate enum constant
+			node.Tag = "!!str"
+		}
 		enumValues = append(enumValues, node)
 	}
 
